@@ -79,3 +79,6 @@ impl Expiration for usize {
         usize::MAX
     }
 }
+
+#[cfg(feature = "verif")]
+pub mod verif;
